@@ -1,9 +1,11 @@
 """C05: byte-level concretisations of the input classes of spec/ConnTotal.tla
 (DESIGN.md appendix B.1 datagram level, B.2 frame level; B.3 is c05_tls.py).
 
-`variants(cls, role, ref)` lists the concretisation ids of a class (static,
-so that jobs can be enumerated before anything runs); `ops(ctx, cls, vid)`
-turns one id into hostile operations for the running simulation:
+`frame_variants` / `dgram_variants` / `tls_variants` list the concretisation
+ids of a class (static, so that jobs can be enumerated before anything runs);
+`frame_variants` (ops), `dgram_build` (raw datagrams) and `tls_messages`
+(message bytes) turn one id into hostile input for the running simulation.
+Hostile operations executed by c05_lib.Ctx.run_ops:
   {"op": "pkt", "ep": epoch, "payload": bytes, ...header options}   a protected packet of the key-holding peer
   {"op": "raw", "data": bytes}                                      a datagram nobody authenticated
   {"op": "api", "who": "tgt"|"src", "call": ...}                    an application call (valid prefix inside a class)
